@@ -308,6 +308,7 @@ Definition multi_step (base dir name enc : pstr) (file : pstr) (g : list (val * 
   | Fail e => inr (XFail (XBase e))
   end.
 
+(* _load_from_multiple_files: the grammar dict afterwards and True / False *)
 Fixpoint multi_files (base dir name enc : pstr) (files : list pstr) (g : list (val * val)) : xres (val * val) :=
   match files with
   | [] => XDone (VDict g, VBool true)
@@ -316,5 +317,76 @@ Fixpoint multi_files (base dir name enc : pstr) (files : list pstr) (g : list (v
               | inr v => v
               end
   end.
+
+(* a section of config.ini by its name *)
+Definition section_ok (c : C) (sec : pstr) (dnf : pstr * pstr * list pstr) : Prop :=
+  exists s, cp_section (w_cfg W) c sec = XDone s /\ sect_wf s (fst (fst dnf)) (snd (fst dnf)) (snd dnf).
+
+(* --skip_case: every capitalisation list is ONE group, the all-lower mask of the length the file
+   name says, with probability 1.0; int() of a file name that is not a number raises ValueError *)
+Definition lower_group (n : Z) : rt_item (F fo) := {| it_values := [rt_repeat k_L n]; it_prob := f_one fo |}.
+
+Fixpoint caps_files (name : pstr) (files : list pstr) (g : list (val * val)) : xres (list (val * val)) :=
+  match files with
+  | [] => XDone g
+  | f :: r => match w_pint W (stem f) with
+              | Some n => caps_files name r (dput (VStr (name ++ stem f)) (val_of_items [lower_group n]) g)
+              | None => XFail (XBase EValue)
+              end
+  end.
+
+(* grammar['M']: every OMEN level of pcfg_omen_prob.txt its own group, with the probability of the
+   group _load_from_file had put it in *)
+Definition split_levels (its : list (rt_item (F fo))) : list (rt_item (F fo)) :=
+  flat_map (fun it => map (fun v => {| it_values := [v]; it_prob := it_prob it |}) (it_values it)) its.
+
+(* sequencing of the loads: a load that returns False ends _load_terminals with False *)
+Definition then_load (r : xres (val * val)) (k : list (val * val) -> xres (val * val)) : xres (val * val) :=
+  match r with
+  | XDone (VDict g, VBool true) => k g
+  | XDone (g, _) => XDone (g, VBool false)
+  | XFail e => XFail e
+  end.
+
+(* grammar[key] = [] ; _load_from_file(grammar[key], path, encoding) *)
+Definition single_file (key path enc : pstr) (post : list (rt_item (F fo)) -> list (rt_item (F fo)))
+           (g : list (val * val)) : xres (val * val) :=
+  match w_load_from_file W [] path enc with
+  | Done (its, true) => XDone (VDict (dput (VStr key) (val_of_items (post its)) g), VBool true)
+  | Done (its, false) => XDone (VDict (dput (VStr key) (val_of_items its) g), VBool false)
+  | Fail e => XFail (XBase e)
+  end.
+
+Record cfg_view := {
+  cv_A : pstr * pstr * list pstr; cv_CAP : pstr * pstr * list pstr; cv_D : pstr * pstr * list pstr;
+  cv_O : pstr * pstr * list pstr; cv_K : pstr * pstr * list pstr; cv_Y : pstr * pstr * list pstr;
+  cv_X : pstr * pstr * list pstr }.
+
+Definition cfg_view_ok (c : C) (v : cfg_view) : Prop :=
+  section_ok c k_BASE_A (cv_A v) /\ section_ok c k_CAPITALIZATION (cv_CAP v) /\ section_ok c k_BASE_D (cv_D v) /\
+  section_ok c k_BASE_O (cv_O v) /\ section_ok c k_BASE_K (cv_K v) /\ section_ok c k_BASE_Y (cv_Y v) /\
+  section_ok c k_BASE_X (cv_X v).
+
+Definition multi (base enc : pstr) (dnf : pstr * pstr * list pstr) (g : list (val * val)) : xres (val * val) :=
+  multi_files base (fst (fst dnf)) (snd (fst dnf)) enc (snd dnf) g.
+
+(* _load_terminals(ruleset_info, grammar, base_directory, config, skip_case) *)
+Definition terminals (v : cfg_view) (base enc : pstr) (skip : bool) (g0 : list (val * val)) : xres (val * val) :=
+  let pj := w_path_join W in
+  then_load (multi base enc (cv_A v) g0) (fun g =>
+  then_load (if skip then match caps_files (snd (fst (cv_CAP v))) (snd (cv_CAP v)) g with
+                          | XDone g' => XDone (VDict g', VBool true)
+                          | XFail e => XFail e
+                          end
+             else multi base enc (cv_CAP v) g) (fun g =>
+  then_load (multi base enc (cv_D v) g) (fun g =>
+  then_load (multi base enc (cv_O v) g) (fun g =>
+  then_load (multi base enc (cv_K v) g) (fun g =>
+  then_load (multi base enc (cv_Y v) g) (fun g =>
+  then_load (multi base enc (cv_X v) g) (fun g =>
+  then_load (single_file k_M (pj [base; n_omen; n_pcfg_omen_prob]) enc split_levels g) (fun g =>
+  then_load (single_file k_E (pj [base; n_Emails; n_email_providers]) enc (fun x => x) g) (fun g =>
+  then_load (single_file k_W (pj [base; n_Websites; n_website_hosts]) enc (fun x => x) g) (fun g =>
+  XDone (VDict g, VBool true))))))))))).
 
 End GuesserGrammar.
